@@ -706,7 +706,7 @@ class Parser:
         if isinstance(p[1], Constant):
             raise ConstInMessageUnsupported.from_token(token=p[1])
         if isinstance(p[1], Proto):
-            raise ImportInMessageUnsupported.from_token(token=p[0])
+            raise ImportInMessageUnsupported.from_token(token=p[1])
         raise StatementInMessageUnsupported(
             lineno=p.lineno(1), filepath=self.current_filepath()
         )
